@@ -197,6 +197,26 @@ def extract_printed(out: str, tag: str):
     return vals
 
 
+def run_apalache(module: str, inv: str, *, length: int = 0, timeout: int = 600):
+    """apalache-mc check --inv=<inv> --length=<length>: returns (proved: bool, wall seconds, tail of the output). The specification has
+    unbounded integer variables, so 'NoError' at length 0 means: the invariant holds in every initial state, i.e. for every value."""
+    sc = _scratch("apa_" + inv)
+    t0 = time.time()
+    try:
+        pr = subprocess.run(["apalache-mc", "check", f"--inv={inv}", f"--length={length}", f"--out-dir={sc}", os.path.join(SPEC, module + ".tla")],
+                            cwd=sc, capture_output=True, text=True, timeout=timeout)
+    except subprocess.TimeoutExpired as ex:
+        shutil.rmtree(sc, ignore_errors=True)
+        raise MachineryError(f"apalache timeout: {module} {inv}") from ex
+    out = pr.stdout + pr.stderr
+    shutil.rmtree(sc, ignore_errors=True)
+    if "The outcome is: NoError" in out:
+        return True, time.time() - t0, out[-500:]
+    if "The outcome is: Error" in out or "Found a deadlock" in out or "violat" in out.lower():
+        return False, time.time() - t0, out[-1500:]
+    raise MachineryError(f"apalache failed ({module}, {inv}):\n{out[-2000:]}")
+
+
 def cleanup_mine():
     """Remove the scratch directories of this process only (checks may run concurrently)."""
     me = f".{os.getpid()}"
